@@ -342,7 +342,12 @@ class Plan:
             for kind in kinds:
                 for k in range(nconc):
                     sch += 1
-                    schema = [s for s in SCHEMAS if len(s) >= 2][sch % 3] if prop == "C13" else SCHEMAS[sch % len(SCHEMAS)]
+                    schema = [s for s in SCHEMAS if len(s) >= 2][(sch + 2) % 5] if prop == "C13" else SCHEMAS[sch % len(SCHEMAS)]
+                    if prop == "C13" and kind == "fixed" and tfname in ("1Min", "5Min", "10Sec", "30Sec") and not getattr(self, "_odd", False):
+                        # at least one fixed-length intraday bucket whose record length (24) is not a power of two: next to its
+                        # wider sibling (32) its year file does not split into read chunks at record boundaries by accident
+                        schema = SCHEMAS[-1]
+                        self._odd = True
                     want_gap = None if nconc == 1 else (k % 2 == 1)
                     conc = {}
                     for z in ((True, False) if kind == "variable" else (True,)):
@@ -353,6 +358,8 @@ class Plan:
                     for j in range(ncontent):
                         z = True if kind == "fixed" else (j + k + tfi) % 2 == 0
                         fill = [0.55, 0.8, 0.35, 1.0][j % 4]
+                        if prop == "C13" and schema is SCHEMAS[-1] and j == 0:
+                            fill = 1.0       # the odd-width bucket holds rows in every position of the year (far beyond one read chunk)
                         content = random_content(rng, d, kind, tfc, fill)
                         if shared_contents:
                             content = shared.setdefault((kind, tfc, j), content)
@@ -709,7 +716,20 @@ def run_multi(prop, tier):
                 cs = c
                 if s == "C" and het:        # the bucket of C has one more data column
                     cs = copy.copy(c)
-                    cs.schema = list(c.schema) + [("xtra", "i4")]
+                    # ... chosen so that the record lengths of the narrow and the wide buckets are not in a simple ratio
+                    # (a reader that sizes its read chunks by the widest record of the request must still cut the narrow
+                    # bucket's file at record boundaries): prefer a width w with (8192 * w) % narrow != 0
+                    SZ = {"i1": 1, "u1": 1, "i2": 2, "u2": 2, "i4": 4, "u4": 4, "f4": 4, "i8": 8, "u8": 8, "f8": 8}
+                    def reclen(sch):
+                        n = sum(SZ[t] for _, t in sch)
+                        return 8 + (n + 7) // 8 * 8
+                    narrow = reclen(c.schema)
+                    xt = "i4"
+                    for cand in ("i4", "i8"):
+                        if (8192 * reclen(list(c.schema) + [("xtra", cand)])) % narrow != 0:
+                            xt = cand
+                            break
+                    cs.schema = list(c.schema) + [("xtra", xt)]
                 bks[s] = Bucket(cs, d, kind, it["tfc"], content, it["z"], "%s/%s/%s" % (names[s], tf, ag), c.T, rng)
                 ops += bks[s].setup_ops(True)
             base = len(ops)
@@ -725,6 +745,13 @@ def run_multi(prop, tier):
                 cand.append((rr, s, e))
             chosen = pick(rng, cand, lambda x: query_cost(c, x[1], x[2]) * max(1, len(x[0]["esyms"])) * (3 if x[0]["cols"] else 2), budget_ms,
                           base_ms=2.0, always=6)
+            # always: the widest projected multi-symbol queries over buckets of different record widths
+            if het:
+                def width(x):
+                    return (x[2] if x[2] is not None else 2 ** 62) - (x[1] if x[1] is not None else 0)
+                musts = sorted([x for x in cand if x[0]["cols"] and not x[0]["n"] and
+                                (x[0]["star"] or ("C" in x[0]["syms"] and ("A" in x[0]["syms"] or "B" in x[0]["syms"])))], key=lambda x: -width(x))[:4]
+                chosen = list(chosen) + [x for x in musts if not any(x is y for y in chosen)]
             for rr, s, e in chosen:
                 asked = sorted(rr["syms"])
                 rng.shuffle(asked)
